@@ -21,6 +21,7 @@ pub enum VTree {
     F64(f64),
     Char(char),
     Str(String),
+    Bytes(Vec<u8>),
     Unit,
     None,
     Some(Box<VTree>),
@@ -53,17 +54,24 @@ impl de::Error for Error {
 }
 
 pub fn to_vtree<T: Serialize>(v: &T) -> Result<VTree, Error> {
-    v.serialize(Ser)
+    v.serialize(Ser(true))
+}
+/// the same data model announcing itself as not human readable (like CBOR / MessagePack / bincode-with-types)
+pub fn to_vtree_compact<T: Serialize>(v: &T) -> Result<VTree, Error> {
+    v.serialize(Ser(false))
 }
 pub fn from_vtree<'de, T: de::Deserialize<'de>>(v: &'de VTree) -> Result<T, Error> {
-    T::deserialize(De(v))
+    T::deserialize(De(v, true))
+}
+pub fn from_vtree_compact<'de, T: de::Deserialize<'de>>(v: &'de VTree) -> Result<T, Error> {
+    T::deserialize(De(v, false))
 }
 
 // ------------------------------------------------------------------------------------------
-pub struct Ser;
+pub struct Ser(pub bool);
 
-pub struct SeqSer(Vec<VTree>, u8, &'static str);
-pub struct StructSer(&'static str, Vec<(&'static str, VTree)>);
+pub struct SeqSer(Vec<VTree>, u8, &'static str, bool);
+pub struct StructSer(&'static str, Vec<(&'static str, VTree)>, bool);
 
 impl ser::Serializer for Ser {
     type Ok = VTree;
@@ -76,6 +84,9 @@ impl ser::Serializer for Ser {
     type SerializeStruct = StructSer;
     type SerializeStructVariant = ser::Impossible<VTree, Error>;
 
+    fn is_human_readable(&self) -> bool {
+        self.0
+    }
     fn serialize_bool(self, v: bool) -> Result<VTree, Error> {
         Ok(VTree::Bool(v))
     }
@@ -115,14 +126,14 @@ impl ser::Serializer for Ser {
     fn serialize_str(self, v: &str) -> Result<VTree, Error> {
         Ok(VTree::Str(v.to_string()))
     }
-    fn serialize_bytes(self, _v: &[u8]) -> Result<VTree, Error> {
-        Err(Error("bytes not used by rtcm-rs".into()))
+    fn serialize_bytes(self, v: &[u8]) -> Result<VTree, Error> {
+        Ok(VTree::Bytes(v.to_vec()))
     }
     fn serialize_none(self) -> Result<VTree, Error> {
         Ok(VTree::None)
     }
     fn serialize_some<T: ?Sized + Serialize>(self, value: &T) -> Result<VTree, Error> {
-        Ok(VTree::Some(Box::new(value.serialize(Ser)?)))
+        Ok(VTree::Some(Box::new(value.serialize(Ser(self.0))?)))
     }
     fn serialize_unit(self) -> Result<VTree, Error> {
         Ok(VTree::Unit)
@@ -134,19 +145,19 @@ impl ser::Serializer for Ser {
         Ok(VTree::UnitVariant(name, idx, variant))
     }
     fn serialize_newtype_struct<T: ?Sized + Serialize>(self, name: &'static str, value: &T) -> Result<VTree, Error> {
-        Ok(VTree::NewtypeStruct(name, Box::new(value.serialize(Ser)?)))
+        Ok(VTree::NewtypeStruct(name, Box::new(value.serialize(Ser(self.0))?)))
     }
     fn serialize_newtype_variant<T: ?Sized + Serialize>(self, name: &'static str, idx: u32, variant: &'static str, value: &T) -> Result<VTree, Error> {
-        Ok(VTree::NewtypeVariant(name, idx, variant, Box::new(value.serialize(Ser)?)))
+        Ok(VTree::NewtypeVariant(name, idx, variant, Box::new(value.serialize(Ser(self.0))?)))
     }
     fn serialize_seq(self, len: Option<usize>) -> Result<SeqSer, Error> {
-        Ok(SeqSer(Vec::with_capacity(len.unwrap_or(0)), 0, ""))
+        Ok(SeqSer(Vec::with_capacity(len.unwrap_or(0)), 0, "", self.0))
     }
     fn serialize_tuple(self, len: usize) -> Result<SeqSer, Error> {
-        Ok(SeqSer(Vec::with_capacity(len), 1, ""))
+        Ok(SeqSer(Vec::with_capacity(len), 1, "", self.0))
     }
     fn serialize_tuple_struct(self, name: &'static str, len: usize) -> Result<SeqSer, Error> {
-        Ok(SeqSer(Vec::with_capacity(len), 2, name))
+        Ok(SeqSer(Vec::with_capacity(len), 2, name, self.0))
     }
     fn serialize_tuple_variant(self, _: &'static str, _: u32, _: &'static str, _: usize) -> Result<Self::SerializeTupleVariant, Error> {
         Err(Error("tuple variants not used by rtcm-rs".into()))
@@ -155,7 +166,7 @@ impl ser::Serializer for Ser {
         Err(Error("maps not used by rtcm-rs".into()))
     }
     fn serialize_struct(self, name: &'static str, len: usize) -> Result<StructSer, Error> {
-        Ok(StructSer(name, Vec::with_capacity(len)))
+        Ok(StructSer(name, Vec::with_capacity(len), self.0))
     }
     fn serialize_struct_variant(self, _: &'static str, _: u32, _: &'static str, _: usize) -> Result<Self::SerializeStructVariant, Error> {
         Err(Error("struct variants not used by rtcm-rs".into()))
@@ -174,7 +185,7 @@ impl ser::SerializeSeq for SeqSer {
     type Ok = VTree;
     type Error = Error;
     fn serialize_element<T: ?Sized + Serialize>(&mut self, value: &T) -> Result<(), Error> {
-        self.0.push(value.serialize(Ser)?);
+        self.0.push(value.serialize(Ser(self.3))?);
         Ok(())
     }
     fn end(self) -> Result<VTree, Error> {
@@ -185,7 +196,7 @@ impl ser::SerializeTuple for SeqSer {
     type Ok = VTree;
     type Error = Error;
     fn serialize_element<T: ?Sized + Serialize>(&mut self, value: &T) -> Result<(), Error> {
-        self.0.push(value.serialize(Ser)?);
+        self.0.push(value.serialize(Ser(self.3))?);
         Ok(())
     }
     fn end(self) -> Result<VTree, Error> {
@@ -196,7 +207,7 @@ impl ser::SerializeTupleStruct for SeqSer {
     type Ok = VTree;
     type Error = Error;
     fn serialize_field<T: ?Sized + Serialize>(&mut self, value: &T) -> Result<(), Error> {
-        self.0.push(value.serialize(Ser)?);
+        self.0.push(value.serialize(Ser(self.3))?);
         Ok(())
     }
     fn end(self) -> Result<VTree, Error> {
@@ -207,7 +218,7 @@ impl ser::SerializeStruct for StructSer {
     type Ok = VTree;
     type Error = Error;
     fn serialize_field<T: ?Sized + Serialize>(&mut self, key: &'static str, value: &T) -> Result<(), Error> {
-        self.1.push((key, value.serialize(Ser)?));
+        self.1.push((key, value.serialize(Ser(self.2))?));
         Ok(())
     }
     fn end(self) -> Result<VTree, Error> {
@@ -217,14 +228,14 @@ impl ser::SerializeStruct for StructSer {
 
 // ------------------------------------------------------------------------------------------
 #[derive(Clone, Copy)]
-pub struct De<'a>(pub &'a VTree);
+pub struct De<'a>(pub &'a VTree, pub bool);
 
-struct SeqDe<'a>(std::slice::Iter<'a, VTree>);
+struct SeqDe<'a>(std::slice::Iter<'a, VTree>, bool);
 impl<'de> SeqAccess<'de> for SeqDe<'de> {
     type Error = Error;
     fn next_element_seed<T: DeserializeSeed<'de>>(&mut self, seed: T) -> Result<Option<T::Value>, Error> {
         match self.0.next() {
-            Some(v) => seed.deserialize(De(v)).map(Some),
+            Some(v) => seed.deserialize(De(v, self.1)).map(Some),
             None => Ok(None),
         }
     }
@@ -232,7 +243,7 @@ impl<'de> SeqAccess<'de> for SeqDe<'de> {
         Some(self.0.len())
     }
 }
-struct MapDe<'a>(std::slice::Iter<'a, (&'static str, VTree)>, Option<&'a VTree>);
+struct MapDe<'a>(std::slice::Iter<'a, (&'static str, VTree)>, Option<&'a VTree>, bool);
 impl<'de> MapAccess<'de> for MapDe<'de> {
     type Error = Error;
     fn next_key_seed<K: DeserializeSeed<'de>>(&mut self, seed: K) -> Result<Option<K::Value>, Error> {
@@ -245,19 +256,19 @@ impl<'de> MapAccess<'de> for MapDe<'de> {
         }
     }
     fn next_value_seed<V: DeserializeSeed<'de>>(&mut self, seed: V) -> Result<V::Value, Error> {
-        seed.deserialize(De(self.1.take().ok_or_else(|| Error("value without key".into()))?))
+        seed.deserialize(De(self.1.take().ok_or_else(|| Error("value without key".into()))?, self.2))
     }
 }
-struct EnumDe<'a>(&'static str, Option<&'a VTree>);
+struct EnumDe<'a>(&'static str, Option<&'a VTree>, bool);
 impl<'de> EnumAccess<'de> for EnumDe<'de> {
     type Error = Error;
     type Variant = VarDe<'de>;
     fn variant_seed<V: DeserializeSeed<'de>>(self, seed: V) -> Result<(V::Value, VarDe<'de>), Error> {
         let v = seed.deserialize(self.0.into_deserializer())?;
-        Ok((v, VarDe(self.1)))
+        Ok((v, VarDe(self.1, self.2)))
     }
 }
-struct VarDe<'a>(Option<&'a VTree>);
+struct VarDe<'a>(Option<&'a VTree>, bool);
 impl<'de> VariantAccess<'de> for VarDe<'de> {
     type Error = Error;
     fn unit_variant(self) -> Result<(), Error> {
@@ -268,7 +279,7 @@ impl<'de> VariantAccess<'de> for VarDe<'de> {
     }
     fn newtype_variant_seed<T: DeserializeSeed<'de>>(self, seed: T) -> Result<T::Value, Error> {
         match self.0 {
-            Some(v) => seed.deserialize(De(v)),
+            Some(v) => seed.deserialize(De(v, self.1)),
             None => Err(Error("expected newtype variant".into())),
         }
     }
@@ -282,7 +293,11 @@ impl<'de> VariantAccess<'de> for VarDe<'de> {
 
 impl<'de> de::Deserializer<'de> for De<'de> {
     type Error = Error;
+    fn is_human_readable(&self) -> bool {
+        self.1
+    }
     fn deserialize_any<V: Visitor<'de>>(self, visitor: V) -> Result<V::Value, Error> {
+        let hr = self.1;
         match self.0 {
             VTree::Bool(v) => visitor.visit_bool(*v),
             VTree::U8(v) => visitor.visit_u8(*v),
@@ -297,33 +312,34 @@ impl<'de> de::Deserializer<'de> for De<'de> {
             VTree::F64(v) => visitor.visit_f64(*v),
             VTree::Char(v) => visitor.visit_char(*v),
             VTree::Str(v) => visitor.visit_borrowed_str(v),
+            VTree::Bytes(v) => visitor.visit_borrowed_bytes(v),
             VTree::Unit => visitor.visit_unit(),
             VTree::None => visitor.visit_none(),
-            VTree::Some(v) => visitor.visit_some(De(v)),
-            VTree::Seq(v) | VTree::Tuple(v) | VTree::TupleStruct(_, v) => visitor.visit_seq(SeqDe(v.iter())),
-            VTree::Struct(_, f) => visitor.visit_map(MapDe(f.iter(), None)),
-            VTree::NewtypeStruct(_, v) => visitor.visit_newtype_struct(De(v)),
-            VTree::UnitVariant(_, _, variant) => visitor.visit_enum(EnumDe(variant, None)),
-            VTree::NewtypeVariant(_, _, variant, v) => visitor.visit_enum(EnumDe(variant, Some(v))),
+            VTree::Some(v) => visitor.visit_some(De(v, hr)),
+            VTree::Seq(v) | VTree::Tuple(v) | VTree::TupleStruct(_, v) => visitor.visit_seq(SeqDe(v.iter(), hr)),
+            VTree::Struct(_, f) => visitor.visit_map(MapDe(f.iter(), None, hr)),
+            VTree::NewtypeStruct(_, v) => visitor.visit_newtype_struct(De(v, hr)),
+            VTree::UnitVariant(_, _, variant) => visitor.visit_enum(EnumDe(variant, None, hr)),
+            VTree::NewtypeVariant(_, _, variant, v) => visitor.visit_enum(EnumDe(variant, Some(v), hr)),
         }
     }
     fn deserialize_option<V: Visitor<'de>>(self, visitor: V) -> Result<V::Value, Error> {
         match self.0 {
             VTree::None => visitor.visit_none(),
-            VTree::Some(v) => visitor.visit_some(De(v)),
+            VTree::Some(v) => visitor.visit_some(De(v, self.1)),
             _ => visitor.visit_some(self),
         }
     }
     fn deserialize_newtype_struct<V: Visitor<'de>>(self, _name: &'static str, visitor: V) -> Result<V::Value, Error> {
         match self.0 {
-            VTree::NewtypeStruct(_, v) => visitor.visit_newtype_struct(De(v)),
+            VTree::NewtypeStruct(_, v) => visitor.visit_newtype_struct(De(v, self.1)),
             _ => visitor.visit_newtype_struct(self),
         }
     }
     fn deserialize_enum<V: Visitor<'de>>(self, _name: &'static str, _variants: &'static [&'static str], visitor: V) -> Result<V::Value, Error> {
         match self.0 {
-            VTree::UnitVariant(_, _, variant) => visitor.visit_enum(EnumDe(variant, None)),
-            VTree::NewtypeVariant(_, _, variant, v) => visitor.visit_enum(EnumDe(variant, Some(v))),
+            VTree::UnitVariant(_, _, variant) => visitor.visit_enum(EnumDe(variant, None, self.1)),
+            VTree::NewtypeVariant(_, _, variant, v) => visitor.visit_enum(EnumDe(variant, Some(v), self.1)),
             _ => Err(Error("expected an enum node".into())),
         }
     }
@@ -427,6 +443,7 @@ impl VTree {
             VTree::F64(v) => json!({"f64_bits": format!("{:#x}", v.to_bits()), "approx": format!("{:e}", v)}),
             VTree::Char(v) => json!({"char": *v as u32}),
             VTree::Str(v) => json!({"str": v}),
+            VTree::Bytes(v) => json!({"bytes": v}),
             VTree::Unit => json!("unit"),
             VTree::None => json!("none"),
             VTree::Some(v) => json!({"some": v.to_json()}),
